@@ -52,13 +52,28 @@ func init() {
 		Assumptions: []string{"recording wrappers around the standard deterministic function set"},
 		Plan: func(tier string, seed int64) *harness.Plan {
 			sys := newSysCases(tier)
+			nRand := size(tier, 120000, 1500000)
+			nStr := size(tier, 60000, 800000)
+			var src *strSource
 			return &harness.Plan{
-				N:     sys.n() + size(tier, 120000, 1500000),
-				Setup: func(c *harness.Ctx) { hooksOn() },
+				N: sys.n() + nRand + nStr,
+				Setup: func(c *harness.Ctx) {
+					hooksOn()
+					src = newStrSource()
+				},
 				Run: func(c *harness.Ctx, k int) {
 					var d *diffCase
 					if k < sys.n() {
 						d = sys.get(k)
+					} else if k >= sys.n()+nRand {
+						if src.err != nil {
+							return
+						}
+						r := c.Rand()
+						var ok bool
+						if d, ok = stringCase(c, r, gen.New(r), src); !ok {
+							return
+						}
 					} else {
 						r := c.Rand()
 						d = randomCase(r, funcBiased(gen.New(r)), r.Intn(5) == 0)
